@@ -29,7 +29,7 @@ ASSUMPTIONS = [
     "{% provide %} wrapped around {% fill %} tags inside a component body is not generated (reading ambiguous)",
     "django mode + `only`: values of unpredicted variables are wildcards",
 ]
-BOUNDS = {"quick": {"programs": 1200, "sequences": 240}, "thorough": {"programs": 25000, "sequences": 4000}}
+BOUNDS = {"quick": {"programs": 3200, "sequences": 480}, "thorough": {"programs": 25000, "sequences": 4000}}
 CFG = {"provide": True, "inject": True, "errors": False, "isfilled": False, "max_nodes": 4, "provide_weight": 4, "inject_pct": 90}
 
 
